@@ -278,6 +278,68 @@ func init() {
 				g.SetConfiguration(lint.NewEmptyConfig())
 			}
 		}
+		// one lint's section is not a table (a scalar or a list under its name): for every ordered pair (lint with the odd
+		// section, other configurable lint) the filtered run comes FIRST and on a configuration parsed for it alone, the
+		// complete run second on a configuration parsed again from the same text - the two must agree on the selected lints
+		{
+			var sections []string
+			if b, err := g.DefaultConfiguration(); err == nil {
+				for _, ln := range strings.Split(string(b), "\n") {
+					if t := strings.TrimSpace(ln); strings.HasPrefix(t, "[") && strings.Contains(t, "_") {
+						sections = append(sections, strings.Trim(t, "[]"))
+					}
+				}
+			}
+			someCerts := certs
+			if len(someCerts) > 6 && tier() != "thorough" {
+				someCerts = append(append([]CorpusCert{}, certs[:3]...), certs[len(certs)-3:]...)
+			}
+			oddPairs := 0
+			for _, a := range sections {
+				for _, shape := range []string{"%s = 1000\n", "%s = [1, 2]\n", "%s = \"x\"\n"} {
+					txt := fmt.Sprintf(shape, a)
+					for _, b := range sections {
+						if a == b {
+							continue
+						}
+						for _, f := range []FilterSpec{{IncludeNames: []string{b}}, {ExcludeNames: []string{a}}} {
+							cfg1, err1 := lint.NewConfigFromString(txt)
+							cfg2, err2 := lint.NewConfigFromString(txt)
+							if err1 != nil || err2 != nil {
+								continue
+							}
+							fr, err := g.Filter(f.opts())
+							if err != nil {
+								continue
+							}
+							fr.SetConfiguration(cfg1)
+							cn, _, ln := namesOfKind(fr)
+							var fcert, fcrl []*zlint.ResultSet
+							for _, cc := range someCerts {
+								fcert = append(fcert, zlint.LintCertificateEx(fresh(cc), fr))
+							}
+							for _, cc := range corpus.CRLs {
+								fcrl = append(fcrl, zlint.LintRevocationListEx(cc.CRL, fr))
+							}
+							g.SetConfiguration(cfg2)
+							for i, cc := range someCerts {
+								fa, fb := zlint.LintCertificate(fresh(cc)), zlint.LintCertificate(fresh(cc))
+								compareFiltered(out, fmt.Sprintf("cert %s (configuration %q, filtered run first on its own parse of it)", cc.File, txt), f, fa, fb, fcert[i], cn)
+								runs++
+							}
+							for i, cc := range corpus.CRLs {
+								fa, fb := zlint.LintRevocationList(cc.CRL), zlint.LintRevocationList(cc.CRL)
+								compareFiltered(out, fmt.Sprintf("crl %s (configuration %q, filtered run first on its own parse of it)", cc.File, txt), f, fa, fb, fcrl[i], ln)
+								runs++
+							}
+							g.SetConfiguration(lint.NewEmptyConfig())
+							oddPairs++
+						}
+					}
+				}
+			}
+			out.Stats["non_table_section_pairs"] = oddPairs
+		}
 		out.Stats["filtered_runs"] = runs
 		out.Stats["lint_results_compared"] = compared
 		out.Stats["filters"] = len(specs)
